@@ -130,10 +130,10 @@ def alerts_behaviours(chk):
     plan = []   # (cfg, sample size or None)
     for n in (1, 2, 3):
         plan.append(("Gen_Alerts_n%d_c0" % n, None))                       # all condition sequences of length 7
-        plan.append(("Gen_Alerts_n%d_c2" % n if quick else "Gen_Alerts_n%d_c2_deep" % n, 300 if quick else 9000))
+        plan.append(("Gen_Alerts_n%d_c2" % n if quick else "Gen_Alerts_n%d_c2_deep" % n, 300 if quick else 6000))
         plan.append(("Gen_Alerts_n%d_edit" % n, None if not quick else 120))
-        plan.append(("Gen_Alerts_n%d_sil" % n, 200 if quick else 5000))
-    plan.append(("Gen_Alerts_n2_edit2", 200 if quick else 4000))
+        plan.append(("Gen_Alerts_n%d_sil" % n, 200 if quick else 3000))
+    plan.append(("Gen_Alerts_n2_edit2", 200 if quick else 2500))
     plan.append(("Gen_Alerts_n3_edit2", 150 if quick else None))
     gens = vlib.pmap(lambda p: vlib.tlc_generate("Gen_Alerts", p[0] + ".cfg", timeout=1200), plan, workers=4)
     out = []
@@ -560,9 +560,9 @@ def kv_behaviours(chk):
     stems = sorted(set(v[0] for v in KINDS.values()))
     plan = []
     for s in stems:
-        plan.append((s, "deep", "Gen_KVStore_%s_deep" % s, "num=%d" % (40 if quick else 600), 10))
+        plan.append((s, "deep", "Gen_KVStore_%s_deep" % s, "num=%d" % (40 if quick else 300), 10))
         if s != "Alias":
-            plan.append((s, "lax", "Gen_KVStore_%s_lax" % s, "num=%d" % (30 if quick else 300), 6))
+            plan.append((s, "lax", "Gen_KVStore_%s_lax" % s, "num=%d" % (30 if quick else 150), 6))
         if not quick:
             plan.append((s, "short", "Gen_KVStore_%s" % s, None, None))
     gens = vlib.pmap(lambda p: vlib.tlc_generate("Gen_KVStore", p[2] + ".cfg", timeout=1200, simulate=p[3], depth=p[4],
@@ -581,7 +581,7 @@ def kv_part(chk, binary):
     quick = chk.tier == "quick"
     kv_model(chk)
     pool = kv_behaviours(chk)
-    per_kind = 90 if quick else 1300
+    per_kind = 90 if quick else 600
     cases = []
     rnd = random.Random(chk.seed)
     for kind, (stem, namesets, _) in sorted(KINDS.items()):
@@ -597,7 +597,17 @@ def kv_part(chk, binary):
     runs = vlib.pmap(lambda c: kv_case_run(binary, c), cases, workers=WORKERS)
     chk.cov["kv_replay_wall_s"] = round(time.time() - t0, 1)
     drift = 0
-    for c, r in zip(cases, runs):
+    # a signature seen in fewer than 3 histories must reproduce on a fresh directory before it is reported
+    # (DESIGN 1: an unreproduced candidate is never a violation)
+    keycount = {}
+    for r in runs:
+        for key in set(k for k, _ in r.fails):
+            keycount[key] = keycount.get(key, 0) + 1
+    rare = [i for i, r in enumerate(runs) if any(keycount[k] < 3 for k, _ in r.fails)]
+    again = vlib.pmap(lambda i: kv_case_run(binary, cases[i]), rare, workers=WORKERS)
+    confirmed = {i: set(k for k, _ in r2.fails) for i, r2 in zip(rare, again)}
+    unrepro = []
+    for idx, (c, r) in enumerate(zip(cases, runs)):
         chk.replayed(1)
         ops = [s["step"]["op"] for s in c["steps"]]
         chk.count(("kv", c["kind"], c["nameset"], tuple(ops)), nontrivial=("restart" in ops and len(ops) > 2))
@@ -607,7 +617,12 @@ def kv_part(chk, binary):
             if key in seen:
                 continue
             seen.add(key)
+            if keycount[key] < 3 and key not in confirmed.get(idx, set()):
+                unrepro.append({"key": key, "what": what[:300], "case": c})
+                continue
             FIND.add(key, "%s [%s names]: %s" % (c["kind"], c["nameset"], what), {"kind": "kv", "case": c})
+    chk.cov["kv_unreproduced_candidates"] = [{"key": u["key"], "what": u["what"]} for u in unrepro[:10]]
+    chk.cov["kv_unreproduced_count"] = len(unrepro)
     chk.cov["kv_histories"] = len(cases)
     chk.cov["kv_policy_drift_steps"] = drift
     ex = next((r for r in runs if r.kind == "usq" and len(r.log) > 3), runs[0])
@@ -638,6 +653,9 @@ def run(chk):
                       "evaluation classes. keyed stores: every history is replayed per store on a fresh directory with all read paths "
                       "compared after each step; distinct_nontrivial counts distinct (store, name set, operation sequence) with a restart",
                  exhaustive=False)
+    if chk.cov.get("kv_unreproduced_count") and not chk.violations and not chk.known_hits:
+        raise vlib.Infra("%d keyed-store candidate(s) did not reproduce on a second run (machine load?): %s" % (
+            chk.cov["kv_unreproduced_count"], chk.cov["kv_unreproduced_candidates"][:2]))
     if drift and not chk.violations and not chk.known_hits:
         raise vlib.Infra("SPEC-DRIFT: the real alertsHandler no longer takes the steps spec/Alerts.tla transcribes (%d behaviours differ) "
                          "although every observation satisfies the law; see evidence transcription_drift_examples" % drift)
